@@ -30,10 +30,10 @@ CHECKS = {
 }
 MORE = {
  "C07": (True, MC, "exhaustive enumeration of the 14-bit CC message space x every reachable concrete scanner state (explicit-state fixpoint of the real scanner)",
-         "Encoder: all 16x32x16384 messages and all 128 controller numbers for the panic condition; every ordered pair of messages over 3072 boundary messages encoded back to back (history independence). Inversion: the complete concrete reachable state set of the real scanner on a channel (4097 states, from the xs fixpoint) x every message of that channel (2.1e9 state-message cases on one channel in the quick tier, on all 16 in thorough).",
+         "Encoder: all 16x32x16384 messages and all 128 controller numbers for the panic condition; a cross-target transcript reproduced under Miri on i686 and s390x; every ordered pair of messages over 3072 boundary messages encoded back to back (history independence). Inversion: the complete concrete reachable state set of the real scanner on a channel (4097 states, from the xs fixpoint) x every message of that channel (2.1e9 state-message cases on one channel in the quick tier, on all 16 in thorough).",
          "One channel at a time; the other 15 idle (isolation is C15).", "4 C07"),
  "C08": (True, MC, "explicit-state model checking of the real scanner to a complete concrete fixpoint against a reference model",
-         "Complete concrete reachability fixpoint of the real ControlChange14BitMessageScanner per channel (all 64x128 contributing inputs, reset, non-contributing class) in product with the statement's reference model; every transition executes the real feed/reset; every BFS path re-derived on a fresh object; stateright cross-count in thorough.",
+         "Complete concrete reachability fixpoint of the real ControlChange14BitMessageScanner per channel (all 64x128 contributing inputs, reset, non-contributing class) in product with the statement's reference model; every transition executes the real feed/reset; every BFS path re-derived on a fresh object; in every state feeds through a message type whose n-th getter call panics (the scanner must stay consistent); 70000-round pumped cycles; a cross-target transcript (all sequences to depth 3) reproduced under Miri on i686 and s390x; stateright cross-count in thorough.",
          "Trusted: the reference model (one Option<(n,v)>). One channel at a time.", "4 C08"),
  "C09": (True, SWEEP, "bounded-exhaustive enumeration of constructor inputs against the statement's slot layout",
          "Quick: every number x boundary values and every value x boundary numbers on every channel, all 8 constructors, both byte orders, Raw and Structured; every ordered pair over a boundary domain of 2100 (4800) messages encoded back to back on one thread (history independence); supplementary sampling of concurrent use (40 / 400 processes x 16 threads); thorough: the full ~3.4e10 product (wall-capped, cap reported).",
@@ -42,31 +42,31 @@ MORE = {
          "Every state of the abstract reachability fixpoint of the real scanner x ~1000 boundary messages through the real encoder; running forms up to k=4 / k=3 from every such state; four dirty states x per-dimension complete message sets (all messages in thorough).",
          "Byte-value abstraction for the prior states (values {0,1,127}; 8 values in thorough); messages carry values outside that domain so leaks are visible.", "4 C10"),
  "C11": (True, MC, "explicit-state model checking of the real scanner against the statement's reference model (abstract fixpoint + concretisation probes; full concrete fixpoint in thorough)",
-         "Reachability fixpoint of the real ParameterNumberMessageScanner x reference model, all 8x128 concrete inputs applied from every reached state; thorough adds the complete concrete fixpoint (4.3M states, 4.4e9 transitions) on one channel and a stateright cross-count.",
+         "Reachability fixpoint of the real ParameterNumberMessageScanner x reference model, all 8x128 concrete inputs applied from every reached state; panicking-getter fault injection in every state; 70000-round pumped cycles; a cross-target transcript reproduced under Miri on i686 and s390x; thorough adds the complete concrete fixpoint (4.3M states, 4.4e9 transitions) on one channel and a stateright cross-count.",
          "Byte-value abstraction in the quick tier (DESIGN 3.3).", "4 C11"),
  "C12": (True, MC, "explicit-state model checking of the real scanner x a generator automaton of the documented grammar under a mock clock; exhaustive encode-feed-poll from every state of the observer fixpoint; hooked-vs-unhooked transcript conformance",
          "Fixpoint of real polling scanner x grammar generator (timeouts 0, 0.5 ms and 1.5 ms on quarter/half millisecond ticks, 2 ms, and five astronomically long timeouts that alias to zero under truncation) with early/late polls, ticks, long pauses and non-contributing messages anywhere; a two-channel product of two generators through one scanner; encode->feed->poll from every state of the C14 fixpoint x ~1000 messages x both byte orders; the hook is bound to the shipped build by an all-sequences transcript comparison with the real-clock build.",
          "Mock clock hook (add-only, cfg-guarded); byte-value abstraction; ages saturate at CAP.", "4 C12"),
  "C13": (True, MC, "explicit-state model checking of the real scanner x history observer under a mock clock, timeouts {0, 0.5 ms, 1.5 ms, 2 ms, 2^40 ms, five astronomically long}",
-         "Fixpoint over feeds (contributing and non-contributing), polls, resets, reset storms, clock ticks and long pauses (998, 1000, 2^20, 2^32-2, 2^32 ms); timeouts 0, 0.5 ms and 1.5 ms (quarter / half millisecond ticks), 2 ms, 2^40 ms, and 2^32 ms, 2^55 s, 2^58 s, 2^61 s, Duration::MAX (each aliases to zero under one truncating conversion); pumped cycles; rules R1-R5 judged on every transition; every feed re-executed at four later instants; one- and two-step concrete probes; CAP-doubling rerun and stateright cross-count in thorough.",
+         "Fixpoint over feeds (contributing and non-contributing), polls, resets, reset storms, clock ticks and long pauses (998, 1000, 2^20, 2^32-2, 2^32 ms); timeouts 0, 0.5 ms and 1.5 ms (quarter / half millisecond ticks), 2 ms, 2^40 ms, and 2^32 ms, 2^55 s, 2^58 s, 2^61 s, Duration::MAX (each aliases to zero under one truncating conversion); pumped cycles; further timeout classes 500 ns / 1500 ns / 1 s on matching clocks; a cross-target transcript (timeouts 2 ms and 10 s, pauses 4295 ms and 6 s) reproduced under Miri on i686 and s390x; rules R1-R5 judged on every transition; every feed re-executed at four later instants; one- and two-step concrete probes; CAP-doubling rerun and stateright cross-count in thorough.",
          "Mock clock hook; byte-value abstraction with concretisation probes; age saturation (cross-checked by doubling).", "4 C13"),
  "C14": (True, MC, "explicit-state model checking of the real scanner x history observer (literal reading of the statement's clauses P1-P7)",
-         "Same product as C13 (timeouts 0, 2 ms, 2^40 ms and the five astronomically long ones) with the no-fabrication / no-duplication / no-loss rules P1-P7; malformed and mixed-kind traffic, non-contributing traffic, reset storms and long pauses are part of the alphabet.",
+         "Same product as C13 (timeouts 0, 2 ms, 2^40 ms and the five astronomically long ones) with the no-fabrication / no-duplication / no-loss rules P1-P7; malformed and mixed-kind traffic, non-contributing traffic, reset storms and long pauses are part of the alphabet; timeout classes 500 ns / 1500 ns / 1 s; in every state feeds through a message type whose n-th getter call panics.",
          "Mock clock hook; byte-value abstraction with concretisation probes; age saturation.", "4 C14"),
  "C15": (True, MC, "explicit-state model checking of a two-channel product (multi-channel scanner vs two solo scanners) for channel pairs, all three scanners",
-         "Fixpoint of (M, A, B) per channel pair with distinct per-channel values, system messages that look like (N)RPN traffic, third-channel traffic, polls, ticks, 2^32 ms pauses and reset storms with traffic; quick: 14 pairs incl. all {c, c+8} and 2 triples (M, A, B, C); thorough: all 120 pairs and 6 triples.",
+         "Fixpoint of (M, A, B) per channel pair with distinct per-channel values, system messages that look like (N)RPN traffic, third-channel traffic, polls, ticks, 2^32 ms pauses and reset storms with traffic; one pair (eight in thorough) with a 1 s timeout on a 250 ms clock; complete messages for standardised RPNs (MPE configuration, null, RPN 0) as single actions on the pair (0, 8); quick: 14 pairs incl. all {c, c+8} and 2 triples (M, A, B, C); thorough: all 120 pairs and 6 triples.",
          "Two simultaneously active channels in the pair products, three in the triple products; four or more active channels are not explored.", "4 C15"),
  "C16": (True, MC, "exhaustive enumeration of non-contributing messages at every state of the scanners' explicit-state fixpoints; exhaustive predicate tables",
          "Every state of each scanner's abstract fixpoint x ~20k-50k non-contributing messages: no report and == state; predicates for all 128 controller numbers; converse link between predicate and observed behaviour.",
          "Derived PartialEq is the notion of 'equal state'. Data-byte grid of 13 values for non-CC messages in quick (full 128^2 in thorough).", "4 C16"),
  "C17": (True, MC, "explicit-state fixpoints with reset/copy probes in every reachable state and replay of every BFS path on a fresh object",
-         "In every reachable state (complete concrete state space for the 14-bit scanner): reset()==new() by PartialEq AND by behaviour (all continuations up to 3 feeds, with polls, compared with a new scanner), also after storms of 256 / 65536 resets (thorough: 2^32 resets in a row per scanner type) and after traffic on all 16 channels; copies evolve identically; every path re-derived on a fresh scanner (catches state outside the value); three-channel products; new()==default().",
+         "In every reachable state (complete concrete state space for the 14-bit scanner): reset()==new() by PartialEq AND by behaviour (all continuations up to 3 feeds, with polls, compared with a new scanner), also after storms of 256 / 65536 resets (thorough: 2^32 resets in a row, and 2^32 messages before a reset, per scanner type), after traffic on all 16 channels and after progress on all 15 other channels; copies evolve identically; every path re-derived on a fresh scanner (catches state outside the value); three-channel products; new()==default().",
          "Continuations of the behavioural comparison are bounded to 3 feeds; PartialEq is used for the equality clause only.", "4 C17"),
  "C18": (True, SWEEP, "exhaustive re-execution of the API domains and scanner fixpoints inside allocation-counting regions and catch_unwind in an unoptimised build, three configurations; polling scanner also with the mock clock moving on after every reading",
          "Counting #[global_allocator] + catch_unwind around every API region in opt-level-0 builds of configurations std (mock clock), no-default-features and real clock; documented panics must occur.",
          "Counts allocations made on the calling thread through the global allocator; does not see stack usage.", "4 C18"),
  "C19": (True, SWEEP, "bounded-exhaustive enumeration of deserializer inputs (primitive value deserializers and serde_json::Value trees, human-readable and not) in the four combinations of the std and serde_repr features",
-         "Every u8/i8/u16/i16 and boundary/truncation 32/64-bit values for the six integer types; composite types over boundary sets containing the first invalid value of every field, all variants; round trips of natural representations.",
+         "Every u8/i8/u16/i16 and boundary/truncation 32/64-bit values for the six integer types; composite types over boundary sets containing the first invalid value of every field, all variants; round trips of natural representations; every input with each field omitted, byte strings, strings, scalars, nulls, nested shapes; a scanner type that gains Serialize + Deserialize is restored from every single-leaf mutation of its serialised states and must survive every Control Change.",
          "serde_json::Value is used as the generic self-describing deserializer; other data formats are assumed to behave like it.", "4 C19"),
 }
 CHECKS.update(MORE)
